@@ -5,6 +5,7 @@ consumer arm in convert.py, that the value classes output.py handles today
 still reach an arm, that every loader path re-links class pointers before it
 hands out (or marks as resolved) a module AST, and that marker strings and
 qualified names written by output.py are the ones the consumer/stubs know.
+Also decides that dotted-name module searches try the longest prefix first.
 Does NOT decide that meaning is preserved across the round trip.
 """
 import ast
@@ -37,10 +38,21 @@ EXPLANATION = (
     "marker strings and metadata tags written by output.py/attr_overlay are "
     "the ones convert.py, decorate.py and the parser test for; R6.5 every "
     "typing./builtins. qualified name output.py writes is defined in the "
-    "bundled stub.  These are necessary conditions: breaking one makes a "
+    "bundled stub; R6.6 module-prefix searches over a dotted name go from the "
+    "longest prefix down: _LateTypeLoader._load_late_type_module's index "
+    "loop is evaluated for names of 1..7 components (range/reversed(range) "
+    "bounds, slice bounds with negative indices, once-bound int locals): the "
+    "prefix lengths tried must be non-increasing, cover n-1..1, the returned "
+    "attribute path must start where the prefix ends, and the loop must "
+    "return at the first importable prefix; every while loop in "
+    "load_pytd/visitors/serialize_ast that shortens a dotted name held in a "
+    "local must peel from the right (rpartition / rsplit('.', 1), element 0).  "
+    "These are necessary conditions: breaking one makes a "
     "downstream module fail to load the stub, crash in convert.py, or see "
     "Any/an error where the upstream analysis had a type.  Preservation of "
-    "meaning by each arm is not decided.")
+    "meaning by each arm is not decided.  Blind spots of R6.6: what "
+    "import_name / the module maps answer for a prefix, strip_init_suffix, "
+    "and prefix searches written in a third form (recursion, itertools).")
 ASSUMPTIONS = [
     "convert.py dispatches pytd nodes only through constant_to_var, "
     "_constant_to_value and _pytd_constant_to_value; structural nodes "
@@ -53,6 +65,9 @@ ASSUMPTIONS = [
     "pytype/abstract later is outside the rule's reach",
     "only presence and order of the re-linking calls is decided, not the "
     "correctness of FillInLocalPointers itself",
+    "R6.6: index and slice bounds are affine in the loop index and the number "
+    "of components, so agreement on names of 1..7 components is agreement on "
+    "all; a longer prefix must win over a shorter one whenever both import",
 ]
 
 OUTPUT = "pytype/output.py"
@@ -96,8 +111,14 @@ def emitted_node_classes(ctx):
       body = umod.functions[h]
     elif h in umod.classes:
       body = umod.classes[h]
+    elif h in umod.assigns or h in umod.imports:
+      raise AnalysisError(f"output.py calls pytd_utils.{h}, an alias the rule does not follow")
     else:
-      raise AnalysisError(f"output.py calls pytd_utils.{h}, which is not defined")
+      # definite: nothing in pytd_utils.py binds that name
+      ctx.bad(f"helper:pytd_utils.{h}", OUTPUT, line,
+              f"output.py calls pytd_utils.{h}, which pytd_utils.py does not define: "
+              "emitting that kind of value raises AttributeError", {"helper": h})
+      continue
     in_isinstance = set()
     for c in calls_in(body, name="isinstance"):
       for sub in ast.walk(c):
@@ -962,7 +983,9 @@ def _peel_loops(mod):
   return out
 
 
-@rule("R6.6", "C06", floor=12)
+# floor: 8 peel loops + at least one instance for _load_late_type_module (4 in
+# its index-loop form, 1 if it is rewritten as a peel loop)
+@rule("R6.6", "C06", floor=9)
 def r6_6(ctx):
   """Module-prefix searches over a dotted name try the longest prefix first.
 
@@ -1059,6 +1082,8 @@ def r6_6(ctx):
     if rets and len(hit) != len(rets):
       raise AnalysisError("_load_late_type_module: a return inside the loop is not `return <module>, <remainder>` "
                           "under `if <module>`")
+    if not rets and any(isinstance(n, ast.Break) for n in walk_no_nested(loop)):
+      raise AnalysisError("_load_late_type_module: the loop is left with `break`: not understood")
     ctx.check(bool(hit), "_load_late_type_module:first-hit-returns", LOAD, loop.lineno,
               "the loop does not return at the first importable prefix: a later (shorter) prefix can "
               "replace the module that was found", {"returns_in_loop": len(rets)})
@@ -1249,4 +1274,33 @@ VARIANTS = [
      "expect": "silent",
      "old": "      return pytd.NamedType(\"builtins.super\")",
      "new": "      return pytd.NamedType(\"builtins.object\")"},
+    # R6.1: a helper that does not exist is a violation, not an analysis error
+    {"name": "pytd_utils-helper-renamed-one-side", "rule": "R6.1", "file": PYTD_UTILS,
+     "expect": "fire", "old": "def MergeBaseClass(cls, base):", "new": "def MergeBase(cls, base):"},
+    # R6.6
+    {"name": "seeded-C06-m1", "rule": "R6.6", "patch": "seeded/C06-m1/patch.diff", "expect": "fire"},
+    {"name": "late-type-prefixes-iterated-backwards", "rule": "R6.6", "file": LOAD, "expect": "fire",
+     "old": "    for i in range(len(parts) - 1):", "new": "    for i in reversed(range(len(parts) - 1)):"},
+    {"name": "late-type-top-level-module-never-tried", "rule": "R6.6", "file": LOAD, "expect": "fire",
+     "old": "    for i in range(len(parts) - 1):", "new": "    for i in range(len(parts) - 2):"},
+    {"name": "late-type-remainder-off-by-one", "rule": "R6.6", "file": LOAD, "expect": "fire",
+     "old": "parts[-(i + 1) :]", "new": "parts[-i:]"},
+    {"name": "late-type-last-importable-prefix-wins", "rule": "R6.6", "file": LOAD, "expect": "fire",
+     "old": "      if ast := self._loader.import_name(\".\".join(module_parts)):\n        return ast, \".\".join(parts[-(i + 1) :])\n    return None, late_type.name",
+     "new": "      if ast := self._loader.import_name(\".\".join(module_parts)):\n        found = ast, \".\".join(parts[-(i + 1) :])\n    return found"},
+    {"name": "import-prefix-search-keeps-first-component", "rule": "R6.6", "file": LOAD, "expect": "fire",
+     "old": "      prefix, _ = prefix.rsplit(\".\", 1)", "new": "      prefix, _ = prefix.split(\".\", 1)"},
+    {"name": "local-pointer-lookup-keeps-first-component", "rule": "R6.6", "file": VISITORS, "expect": "fire",
+     "old": "        module, _, _ = module.rpartition(\".\")", "new": "        module, _, _ = module.partition(\".\")"},
+    {"name": "twin-late-type-descending-index", "rule": "R6.6", "expect": "silent",
+     "edits": [(LOAD, "    for i in range(len(parts) - 1):", "    for i in range(len(parts) - 1, 0, -1):"),
+               (LOAD, "parts[: -(i + 1)]", "parts[:i]"), (LOAD, "parts[-(i + 1) :]", "parts[i:]")]},
+    {"name": "twin-late-type-reversed-range-with-local-length", "rule": "R6.6", "expect": "silent",
+     "edits": [(LOAD, "    for i in range(len(parts) - 1):", "    n = len(parts)\n    for k in reversed(range(1, n)):"),
+               (LOAD, "parts[: -(i + 1)]", "parts[0:k]"), (LOAD, "parts[-(i + 1) :]", "parts[k - n :]")]},
+    {"name": "twin-late-type-peel-loop", "rule": "R6.6", "file": LOAD, "expect": "silent",
+     "old": "    parts = late_type.name.split(\".\")\n    for i in range(len(parts) - 1):\n      module_parts = module_utils.strip_init_suffix(parts[: -(i + 1)])\n      if ast := self._loader.import_name(\".\".join(module_parts)):\n        return ast, \".\".join(parts[-(i + 1) :])\n    return None, late_type.name",
+     "new": "    prefix, rest = late_type.name, []\n    while \".\" in prefix:\n      prefix, _, last = prefix.rpartition(\".\")\n      rest.insert(0, last)\n      module_parts = module_utils.strip_init_suffix(prefix.split(\".\"))\n      if ast := self._loader.import_name(\".\".join(module_parts)):\n        return ast, \".\".join(rest)\n    return None, late_type.name"},
+    {"name": "twin-import-prefix-search-rpartition", "rule": "R6.6", "file": LOAD, "expect": "silent",
+     "old": "      prefix, _ = prefix.rsplit(\".\", 1)", "new": "      prefix, _, _ = prefix.rpartition(\".\")"},
 ]
